@@ -14,7 +14,7 @@ pub static DEF: PropDef = PropDef {
     id: "C02",
     title: "The decoder never reads outside its input, whatever reader backs it",
     rule: "Inputs as C01 (G-wire tapes under all 8 option sets, the same octets as bare AVP lists, the attribute-type x payload-length grid), plus each AVP kind's public try_read \
-called directly on payloads of every length 0..40 (2 fills), plus G-hidden values for reveal. Every input is decoded through MonReader (a harness reader that checks each \
+called directly on payloads of every length 0..40 (2 fills) and on generated payloads (a valid value of the kind of up to 1017 octets, then possibly cut, extended or corrupted; result also compared with the reference payload format), plus G-hidden values for reveal. Every input is decoded through MonReader (a harness reader that checks each \
 fixed-width read, skip and sub-range request against the octets remaining before serving it), through OwnedReader (T = Vec<u8>) and through SliceReader; zero contract \
 violations are allowed and the three results (values, errors, octets left) must be identical. Non-trivial = the decoder issued at least one unchecked request; distinct by hash of (input, leg).",
     assumptions: &[
@@ -36,7 +36,7 @@ fn parts(t: Tier) -> Vec<Part> {
         Tier::Quick => (900_000, 600_000),
         Tier::Thorough => (10_000_000, 6_000_000),
     };
-    vec![tape("wire", a, 900), tape("reveal", b, 400), enumerate("grid", GRID_SIZE), enumerate("pertype", PER_TYPE_SIZE)]
+    vec![tape("wire", a, 900), tape("reveal", b, 400), tape("pertype-random", b, 1300), enumerate("grid", GRID_SIZE), enumerate("pertype", PER_TYPE_SIZE)]
 }
 
 fn record_log(cx: &mut Cx, l: &Log) {
@@ -189,9 +189,47 @@ fn check_per_type(index: u64, cx: &mut Cx) -> Res {
     i /= 41;
     let attr = per_type_attr(i % 38);
     let payload: Vec<u8> = (0..plen).map(|k| if fill == 0 { (k == 1) as u8 } else { 0x41 + (k % 20) as u8 }).collect();
+    check_per_type_payload(attr, &payload, "pertype", cx)
+}
+
+/// a generated payload for a kind's own try_read: a valid value of the kind, then possibly cut, extended or corrupted
+fn gen_per_type(t: &mut Tape) -> (u16, Vec<u8>) {
+    let attr = per_type_attr(t.below(38));
+    let mut p = Vec::new();
+    encode_payload(&gen_body(t, attr), &mut p);
+    match t.below(8) {
+        0 => {
+            let n = t.below(p.len() + 1);
+            p.truncate(n);
+        }
+        1 => {
+            let n = 1 + t.below(40);
+            let x = t.raw(n);
+            p.extend_from_slice(&x);
+        }
+        2 if !p.is_empty() => {
+            let i = t.below(p.len());
+            p[i] = 0xff - (t.byte() & 0x3f);
+        }
+        3 => {
+            let min = fmt_of(attr).map(min_len).unwrap_or(0);
+            p.truncate(min.saturating_sub(1));
+        }
+        4 => {
+            let min = fmt_of(attr).map(min_len).unwrap_or(0);
+            p.truncate(min);
+        }
+        _ => {}
+    }
+    (attr, p)
+}
+
+fn check_per_type_payload(attr: u16, payload: &[u8], family: &'static str, cx: &mut Cx) -> Res {
+    let plen = payload.len();
+    let fill = 0usize;
     cx.eval();
-    let render = || json!({"attribute_type": attr, "payload": hex(&payload), "call": "types::<Kind>::try_read"});
-    let (mut mr, log) = MonReader::new(&payload);
+    let render = || json!({"attribute_type": attr, "payload": hex(payload), "call": "types::<Kind>::try_read"});
+    let (mut mr, log) = MonReader::new(payload);
     let r_mon = match guard(|| per_type_try_read(attr, &mut mr).map(|r| (r, mr.len()))) {
         Caught::Ok(r) => r,
         Caught::Monitor(p) => {
@@ -214,14 +252,14 @@ fn check_per_type(index: u64, cx: &mut Cx) -> Res {
     } else {
         "per-type payload other"
     });
-    cx.nontrivial(&(attr, plen, fill, 2u8));
-    let mut or = OwnedReader::new(&payload);
+    cx.nontrivial(&(attr, payload, fill, 2u8));
+    let mut or = OwnedReader::new(payload);
     let r_own = match guard(|| per_type_try_read(attr, &mut or).map(|r| (r, or.len()))) {
         Caught::Ok(r) => r,
         _ => return fail("per-type try_read through OwnedReader panicked where MonReader did not", render()),
     };
     cx.stage(STAGE_ARMED);
-    let mut sr = SliceReader::from(&payload[..]);
+    let mut sr = SliceReader::from(payload);
     let r_sl = match guard(|| per_type_try_read(attr, &mut sr).map(|r| (r, sr.len()))) {
         Caught::Ok(r) => r,
         _ => return fail("per-type try_read through SliceReader panicked where MonReader did not", render()),
@@ -235,13 +273,19 @@ fn check_per_type(index: u64, cx: &mut Cx) -> Res {
         return fail("per-type results differ between reader implementations", r);
     }
     // the per-type reader must agree with the reference on acceptance (it is the same decode step)
-    let spec = decode_payload(attr, &payload);
+    let spec = decode_payload(attr, payload);
     if let Some((r, _)) = &r_mon {
-        if r.is_ok() != spec.is_ok() {
-            return fail("per-type try_read acceptance differs from the reference payload format", render());
+        match (r, &spec) {
+            (Ok(a), Ok(body)) => {
+                if a.attr != attr || a.hidden || a.body != *body {
+                    return fail(format!("per-type try_read value {:?} differs from the reference payload format {:?}", a, body), render());
+                }
+            }
+            (Err(_), Err(_)) => {}
+            _ => return fail("per-type try_read acceptance differs from the reference payload format", render()),
         }
     }
-    cx.sample("pertype", || json!({"attribute_type": attr, "payload": hex(&payload), "monitored_calls": l.calls, "family": "pertype"}));
+    cx.sample(family, || json!({"attribute_type": attr, "payload": hex_short(payload), "monitored_calls": l.calls, "family": family}));
     Ok(())
 }
 
@@ -287,6 +331,10 @@ fn run_tape(part: &str, tape: &[u8], cx: &mut Cx) -> Res {
                 check_avps(&b[12..], "wire-body-as-avps", cx)?;
             }
             Ok(())
+        }
+        "pertype-random" => {
+            let (attr, p) = gen_per_type(&mut t);
+            check_per_type_payload(attr, &p, "pertype-random", cx)
         }
         _ => {
             let h = gen_hidden(&mut t);
